@@ -145,15 +145,30 @@ def sortBy {α} (le : α → α → Bool) (l : List α) : List α := l.foldl (fu
 def lex3 (a b : Nat × Nat × Nat) : Bool :=
   a.1 < b.1 || (a.1 == b.1 && (a.2.1 < b.2.1 || (a.2.1 == b.2.1 && a.2.2 ≤ b.2.2)))
 
+def fibLe (a b : FibReq) : Bool := lex3 (a.table, a.pfx.fam, a.pfx.id) (b.table, b.pfx.fam, b.pfx.id)
+def destLe (a b : DestObs) : Bool := lex3 (a.pfx.fam, a.pfx.id, 0) (b.pfx.fam, b.pfx.id, 0)
+def natLe (a b : Nat) : Bool := a ≤ b
+
+def regsOf : List (Bool × Addr) → List Addr
+  | [] => []
+  | (true, a) :: rs => a :: regsOf rs
+  | (false, _) :: rs => regsOf rs
+def unregsOf : List (Bool × Addr) → List Addr
+  | [] => []
+  | (false, a) :: rs => a :: unregsOf rs
+  | (true, _) :: rs => unregsOf rs
+
+/-- registers (sorted by address) before unregisters (sorted by address) -/
+def canonNht (l : List (Bool × Addr)) : List (Bool × Addr) :=
+  (sortBy natLe (regsOf l)).map (fun a => (true, a)) ++ (sortBy natLe (unregsOf l)).map (fun a => (false, a))
+
 /-- Canonical form (what the harness prints): FIB requests stably sorted by (table, prefix), NHT
-    requests sorted by (address, register first), destinations by prefix. -/
+    requests as registers then unregisters, each sorted by address, destinations by prefix. -/
 def canonStep (s : StepObs) : StepObs :=
-  ⟨sortBy (fun a b => lex3 (a.table, a.pfx.fam, a.pfx.id) (b.table, b.pfx.fam, b.pfx.id)) s.fib,
-   sortBy (fun a b => lex3 (a.2, (if a.1 then 0 else 1), 0) (b.2, (if b.1 then 0 else 1), 0)) s.nht,
-   sortBy (fun a b => lex3 (a.pfx.fam, a.pfx.id, 0) (b.pfx.fam, b.pfx.id, 0)) s.rib⟩
+  ⟨sortBy fibLe s.fib, canonNht s.nht, sortBy destLe s.rib⟩
 
 def svcT (es : List Bool) (w : Watched) (reqs : List (Bool × Addr)) : Term :=
-  let addrs := sortBy (fun a b => a ≤ b) (reqs.map (·.2)).eraseDups
+  let addrs := sortBy natLe (reqs.map (·.2)).eraseDups
   tag "svc-trace" [tag "emit" (es.map bool),
                    tag "final" (addrs.map (fun a => list [nat a, nat (watchedGet w a)]))]
 
